@@ -167,7 +167,9 @@ CHECKS = {
             TRUST, "6/C15"),
     "C14": (True, "exploration",
             "exhaustive small-scope enumeration of path text + Hypothesis "
-            "text generation against an exception-type oracle",
+            "text generation + template/payload slot filling + atheris "
+            "(libFuzzer) coverage-guided campaigns, all against an "
+            "exception-type oracle with signature bucketing",
             "Every string of length <= 5 (quick) / <= 6 (thorough) over the "
             "27 syntactically significant symbols is parsed under three "
             "separator settings and must end in segments or "
@@ -175,7 +177,9 @@ CHECKS = {
             "mutated valid paths) and 41 templates x 51 payloads (format "
             "braces, percent directives, non-ASCII digits, over-long "
             "numbers, control characters in every syntactic position) "
-            "extend beyond the bound. Exhaustive within "
+            "and coverage-guided atheris campaigns with the package instrumented "
+            "(quick 8 x 12k executions, thorough 16 x 1.5M; half from an "
+            "empty corpus) extend beyond the bound. Exhaustive within "
             "the bound, sampled beyond it; absence of violations beyond the "
             "explored scope is not established.",
             TRUST + "Non-termination is detected by an alarm, not proven "
